@@ -111,7 +111,50 @@ func cliFile(r *rand.Rand, sfx string, flags []string) gen.M {
 	default: // bf
 		k := 1 + r.Intn(4)
 		names := gen.Names(k)
+		if r.Intn(3) == 0 {
+			names = gen.RandNames(r, k)
+		}
 		toks := gen.Tokens(r, gen.RandSyntaxTree(r, k, 1+r.Intn(7)), names, 1, 0.1)
+		if r.Intn(3) == 0 {
+			// one row of the truth table of a formula over a large exactly-one group, at either polarity: the
+			// group, then one clause per variable fixing it (few variables true, the last listed ones more often)
+			k = 5 + r.Intn(3)
+			names = gen.Names(k)
+			perm := r.Perm(k)
+			grp := []string{"{"}
+			for i, v := range perm {
+				if i > 0 {
+					grp = append(grp, ",")
+				}
+				grp = append(grp, names[v])
+			}
+			grp = append(grp, "}")
+			switch r.Intn(4) {
+			case 0:
+				toks = append([]string{"^"}, grp...)
+			case 1:
+				toks = append(append([]string{}, grp...), "->", names[r.Intn(k)])
+			case 2:
+				toks = append([]string{names[r.Intn(k)], "="}, grp...)
+			default:
+				toks = append([]string{}, grp...)
+			}
+			val := make([]bool, k)
+			for x := r.Intn(4); x > 0; x-- {
+				pick := perm[k-1-r.Intn(3)]
+				if r.Intn(3) == 0 {
+					pick = r.Intn(k)
+				}
+				val[pick] = true
+			}
+			for v := 0; v < k; v++ {
+				toks = append(toks, ";")
+				if !val[v] {
+					toks = append(toks, "^")
+				}
+				toks = append(toks, names[v])
+			}
+		}
 		c := cliBase(r, "bf", k, nil)
 		c["tokens"], c["names"] = toks, names
 		return c
